@@ -7,6 +7,7 @@ package homescript
 // by the symbolic engine and natively during replay.
 
 import (
+	goruntime "runtime"
 	"context"
 	"fmt"
 	"strings"
@@ -227,6 +228,30 @@ func verifTreePrint(newline bool) ivalue.Value {
 	})
 }
 
+// pause(): a host function that blocks until the run is cancelled, polling the cancellation context the way the
+// repository's own `time.sleep` does, and then hands back the termination interrupt.
+func verifVmPause() vvalue.Value {
+	return *vvalue.NewValueBuiltinFunction(func(executor vvalue.Executor, cancelCtx *context.Context, span herrors.Span, args ...vvalue.Value) (*vvalue.Value, *vvalue.VmInterrupt) {
+		for {
+			if i := checkCancelationVM(cancelCtx, span); i != nil {
+				return nil, i
+			}
+			goruntime.Gosched()
+		}
+	})
+}
+
+func verifTreePause() ivalue.Value {
+	return *ivalue.NewValueBuiltinFunction(func(executor ivalue.Executor, cancelCtx *context.Context, span herrors.Span, args ...ivalue.Value) (*ivalue.Value, *ivalue.Interrupt) {
+		for {
+			if i := checkCancelationTree(cancelCtx, span); i != nil {
+				return nil, i
+			}
+			goruntime.Gosched()
+		}
+	})
+}
+
 // ---- inputs ----
 
 // verifInput describes host-provided globals of a program.
@@ -249,6 +274,9 @@ func verifAnalyzerScope(inputs []verifInput) map[string]analyzer.Variable {
 	m := map[string]analyzer.Variable{
 		"print":   analyzer.NewBuiltinVar(verifPrintType()),
 		"println": analyzer.NewBuiltinVar(verifPrintType()),
+		"pause": analyzer.NewBuiltinVar(ast.NewFunctionType(
+			ast.NewNormalFunctionTypeParamKind([]ast.FunctionTypeParam{}),
+			herrors.Span{}, ast.NewNullType(herrors.Span{}), herrors.Span{})),
 	}
 	for _, in := range inputs {
 		switch in.kind {
@@ -266,7 +294,7 @@ func verifAnalyzerScope(inputs []verifInput) map[string]analyzer.Variable {
 }
 
 func verifVmScope(inputs []verifInput) map[string]vvalue.Value {
-	m := map[string]vvalue.Value{"print": verifVmPrint(false), "println": verifVmPrint(true)}
+	m := map[string]vvalue.Value{"print": verifVmPrint(false), "println": verifVmPrint(true), "pause": verifVmPause()}
 	for _, in := range inputs {
 		switch in.kind {
 		case 'i':
@@ -283,7 +311,7 @@ func verifVmScope(inputs []verifInput) map[string]vvalue.Value {
 }
 
 func verifTreeScope(inputs []verifInput) map[string]ivalue.Value {
-	m := map[string]ivalue.Value{"print": verifTreePrint(false), "println": verifTreePrint(true)}
+	m := map[string]ivalue.Value{"print": verifTreePrint(false), "println": verifTreePrint(true), "pause": verifTreePause()}
 	for _, in := range inputs {
 		switch in.kind {
 		case 'i':
